@@ -25,10 +25,10 @@ CONFIG = dict(
              'lines ("a>", "-->", "N > <c@x>", trailing text, empty brackets, ...) and randomly cut / spliced / delimiter-injected lines '
              '(ParseMailmap panicked on some before the repair 199beb1; they are skipped now). Scale kinds (judged per commit with hash tables in the driver + full '
              'comparison with the model; no quadratic oracle): scale-few = 10^3, 10^4, 10^5 (thorough 10^6) commits over p names x q e-mails, p, q '
-             'in 15/16/17, 255/257, 1023/1025, both modes; scale-chain = one developer with 255 / 513 (thorough 1000, 2049, 10^4, 10^5) names and '
+             'in 15/16/17, 255/257, 1023/1025, both modes; scale-chain = one developer with 255 / 513 (thorough 1000, 1025, 10^4, 10^5) names and '
              'e-mails, ascending / descending / shuffled; scale-many = 255, 256, 257, 1000 developers (thorough 4095..4097 and, judged without the '
-             'model, 2^16-1..2^16+1 and 2^18-3..2^18+1 around AuthorMissing = 2^18-2); scale-mailmap = .mailmap of 80 / 900 (thorough 9000) lines '
-             'with 10^3 / 10^4 (10^5) commits. Non-trivial = at least 2 commits and a lower-cased name or e-mail that occurs twice, or a mailmap '
+             'model, 2^16-1..2^16+1 and, judged inside the harness with Go maps (the trace carries the verdict), 2^18-3..2^18+1 around AuthorMissing = 2^18-2); scale-mailmap = .mailmap of 80 / 900 (thorough 2700) lines '
+             'with 10^3 / 10^4 (3*10^4) commits. Non-trivial = at least 2 commits and a lower-cased name or e-mail that occurs twice, or a mailmap '
              'entry that touches an author of the list. Stream c16m: a pair of identity lists goes through the real '
              'MergeReversedDictsIdentities (3 runs, answers must '
              'agree) and MergeReversedDictsLiteral; recorded: the index map sorted by key and the merged list. Kinds: dom-exh4 = all 22 500 '
@@ -36,6 +36,10 @@ CONFIG = dict(
              'entries over {a, b, x@} without the disjointness restriction (thorough also <=3 entries over {a, x@} and 150 000 sampled pairs '
              'over 5 parts); dom-rand, dom-same (identical / permuted / truncated copies), dom-chain (a-b-c chains alternating between the '
              'lists, broken or shuffled), dom-apart (nothing merges, one list empty), dom-namemail (sharing only a name / only an e-mail); '
+             'dom-scale-same / -chain / -stars / -apart = in-domain pairs of lists with 40, 255, 257, 10^3, 10^4 (thorough 10^5) identities: '
+             'permuted copies, ONE component chained through both lists (in order / reversed / shuffled), star components of 3..9 identities, '
+             'nothing merging; above 80 identities the extracted model and oracles (high polynomial degree) are replaced by the driver\'s own '
+             'hash / union-find statement of totality, pointers, components and union; '
              'f7-* = a part occurs in two entries of ONE list (finding F7), kept apart by name. Non-trivial = at least 2 identities and a part '
              'shared between the two lists. Distinct = distinct input fields.',
         exhaustive_note='every commit list of length <=3 (thorough <=4) over 12 signatures x both modes; every one-line mailmap over 81 lines x every '
